@@ -163,6 +163,7 @@ class AdwinDriver(Driver):
         self.M = M
         self.stack.enter_context(rebind(M, zeros=stubs.object_zeros))
         self.cut_calls = []
+        self.cut_extra = []  # (decision with the extra arguments, decision from the current window) per such call
 
     def _params(self):
         c = self.ctx
@@ -185,9 +186,16 @@ class AdwinDriver(Driver):
         if self.cfg.get("havoc_cut", True):
             calls = self.cut_calls
 
-            def check_epsilon(n0, t0, n1, t1, _d=d):
+            extra_calls = self.cut_extra
+
+            def check_epsilon(n0, t0, n1, t1, *extra, _d=d, **kw):
                 b = cur().bool("cut")
                 calls.append((n0, t0, n1, t1, b, _d._window_size, _d.total_samples))
+                if extra or kw:
+                    # the caller hands over more than the two sub-windows (e.g. a variance or confidence term computed
+                    # earlier): the decision must still be the one the real method takes from the *current* window
+                    real = type(_d)._check_epsilon
+                    extra_calls.append((real(_d, n0, t0, n1, t1, *extra, **kw), real(_d, n0, t0, n1, t1)))
                 return b
 
             d._check_epsilon = check_epsilon
